@@ -69,6 +69,10 @@ def std_run(engine, job, obligations_fn, marker, prop, scen, files=None, opt='O1
     res['functions'] = sorted(f for f in eng.fn_executed if 'ezc3d' in f)
     return res
 
+def is_sweep(j):
+    """jobs of the complete shape sweeps (C01 API-built, C02/C04 files): the checks that only borrow those job lists skip them in the quick tier"""
+    return bool(j.get('sweep')) or str(j.get('name', '')).startswith('shape-sweep')
+
 def end_locus(r):
     i = r.info
     if type(i) is tuple:
